@@ -15,8 +15,8 @@ LEVEL = 'exploration'
 RULE = ('1-3 processes with private and shared stores; per variable a generated emit flag; variables with units '
         '(emitted as !units[...] in declared units), with a custom serializer, with falsy values; a flow step '
         'and a legacy deriver whose outputs are emitted (rows must show post-step values); store_schema '
-        'overrides at leaf and branch level; a glob store whose children are added and deleted during the '
-        'run (rows follow the shape); dyadic timesteps, 1-5 run_for/update calls, nonzero initial time; '
+        'overrides at leaf and branch level; two glob stores whose children are added, deleted, divided and moved '
+        'during the run (rows follow the shape); dyadic timesteps, 1-5 run_for/update calls, nonzero initial time; '
         'every case is also run with emit_step in {2, 3, 0.5, 2.5} for the subset law; non-trivial = >=4 '
         'rows and >=2 distinct flag values and a store_schema override or structural change; distinct = '
         'distinct case spec')
@@ -56,9 +56,17 @@ def gen(r, tier, i):
         t = 1.0
         names = ['c1', 'c2', 'c3']
         live = []
-        for _ in range(r.randint(1, 4)):
-            if live and r.random() < 0.4:
+        for _ in range(r.randint(1, 5)):
+            k = r.random()
+            if live and k < 0.3:
                 script[str(t)] = ['delete', live.pop(r.randrange(len(live)))]
+            elif live and k < 0.5:
+                c = live.pop(r.randrange(len(live)))
+                if len(c) <= 3:
+                    script[str(t)] = ['divide', c]
+                    live += [c + '0', c + '1']
+            elif live and k < 0.65:
+                script[str(t)] = ['move', live.pop(r.randrange(len(live)))]      # into the second glob store
             elif names:
                 c = names.pop(0)
                 live.append(c)
@@ -138,8 +146,9 @@ def build(spec, emit_step):
 
     class Director(Process):
         def ports_schema(self):
-            return {'cells': {'*': {'x': {'_default': 7, '_emit': spec['emit_cell']},
-                                    'y': {'_default': 0, '_emit': not spec['emit_cell']}}},
+            sub = {'x': {'_default': 7, '_emit': spec['emit_cell'], '_divider': 'set'},
+                   'y': {'_default': 0, '_emit': not spec['emit_cell'], '_divider': 'set'}}
+            return {'cells': {'*': copy.deepcopy(sub)}, 'cells2': {'*': copy.deepcopy(sub)},
                     'clk': {'_default': 0.0, '_emit': False}}
 
         def next_update(self, timestep, states):
@@ -152,6 +161,12 @@ def build(spec, emit_step):
                 elif op[0] == 'delete' and op[1] in states['cells']:
                     cells.pop(op[1], None)
                     cells['_delete'] = [op[1]]
+                elif op[0] == 'divide' and op[1] in states['cells']:
+                    cells.pop(op[1], None)
+                    cells['_divide'] = {'mother': op[1], 'daughters': [{'key': op[1] + '0'}, {'key': op[1] + '1'}]}
+                elif op[0] == 'move' and op[1] in states['cells'] and op[1] not in states['cells2']:
+                    cells.pop(op[1], None)
+                    cells['_move'] = [{'source': (op[1],), 'target': ('cells2',)}]
             if cells:
                 upd['cells'] = cells
             return upd
@@ -163,7 +178,7 @@ def build(spec, emit_step):
         processes[name] = EmitProc({'ts': p['ts'], 'emit': p['emit']})
         topology[name] = {'S': ('st', name), 'shared': ('shared',)}
     processes['dir'] = Director({'script': spec['script'], 'timestep': 1.0})
-    topology['dir'] = {'cells': ('cells',), 'clk': ('clk',)}
+    topology['dir'] = {'cells': ('cells',), 'cells2': ('cells2',), 'clk': ('clk',)}
     steps = {'sum': SumStep(), 'twice': Twice()}
     topology['sum'] = {'st': ('st',), 'out': ('out',)}
     topology['twice'] = {'out': ('out',)}
@@ -175,7 +190,7 @@ def build(spec, emit_step):
             node = node.setdefault(k, {})
         node['_emit'] = o['emit']
     e = MonEngine(processes=processes, steps=steps, flow=flow, topology=topology,
-                  initial_state={'cells': {}}, display_info=False,
+                  initial_state={'cells': {}, 'cells2': {}}, display_info=False,
                   emitter={'type': 'vmon_rec', 'snapshot': True}, emit_step=emit_step,
                   store_schema=store_schema or None, initial_global_time=spec['t0'])
     return e
@@ -211,7 +226,7 @@ def expected_row(spec, snap, fl):
             node = node.setdefault(k, {})
         node[path[-1]] = value
     # branches always appear
-    for b in (('st',), ('shared',), ('out',), ('cells',)):
+    for b in (('st',), ('shared',), ('out',), ('cells',), ('cells2',)):
         if not snap.get(b[0]):
             continue        # a store without children emits nothing
         node = out
@@ -222,10 +237,10 @@ def expected_row(spec, snap, fl):
     for path, v in flat(snap).items():
         if not path:
             continue
-        if path[0] == 'cells':
+        if path[0] in ('cells', 'cells2'):
             if len(path) == 1:
                 continue
-            out.setdefault('cells', {}).setdefault(path[1], {})
+            out.setdefault(path[0], {}).setdefault(path[1], {})
             if len(path) == 3:
                 on = spec['emit_cell'] if path[2] == 'x' else (not spec['emit_cell'] if path[2] == 'y' else False)
                 if on:
@@ -354,7 +369,11 @@ def run(spec):
     return {'viol': list(V), 'evals': V.evals, 'stats': {'rows': len(hist), 'structural_ops': len(spec['script'])},
             'nontrivial': nt, 'classes': ['overrides' if spec['overrides'] else 'no_overrides',
                                           'structural' if spec['script'] else 'static',
-                                          't0_nonzero' if spec['t0'] else 't0_zero'],
+                                          't0_nonzero' if spec['t0'] else 't0_zero'] +
+            (['glob_child_moved'] if any(ev[4].get('cells2') for ev in hist) else []) +
+            (['glob_child_divided'] if any(len(c) > 2 and c[:-1] in dict(spec['script'].values() and
+                                                                        [(o[1], 1) for o in spec['script'].values() if o[0] == 'divide'])
+                                           for ev in hist for c in ev[4].get('cells', {})) else []),
             'summary': {'rows': len(hist), 'emit_steps': spec['emit_steps']}}
 
 
